@@ -16,6 +16,12 @@
 // PathOf, FlattenedKeys and CompareConfigs answer with names and plain
 // decimal indices however a position was written.
 //
+// The read side is a dimension of its own as well (readopts_test.go): the
+// option list FlattenedKeys and CompareConfigs are called with (PathSep with
+// any separator or none, other options around it) is independent of the
+// options the configurations were written with, and so is the separator Path
+// and PathOf are asked with.
+//
 // Sub-check diff-pairs: pairs of trees given to diff.CompareConfigs, each also
 // in a second spelling with dotted keys.
 //
@@ -41,7 +47,19 @@ import (
 	"verif/harness/internal/uc"
 )
 
-type Case = hist.Case
+// Case is a history (hist.Case) together with the read side: the option lists
+// FlattenedKeys and CompareConfigs are called with (one per step, in rotation)
+// and the separator Path and PathOf are asked with.
+type Case struct {
+	hist.Case
+	// ReadOpts: the option lists of the reading calls; the check after step i uses number (i+1) mod len
+	// (the initial state number 0). Empty (cases recorded before the dimension existed): only the options
+	// the history was written with.
+	ReadOpts []ReadOpts `json:"readopts,omitempty"`
+	// QSep: the separator Path and PathOf are asked with throughout the history ("": "." or, every fourth
+	// history, "/")
+	QSep string `json:"qsep,omitempty"`
+}
 
 // d14Open: finding D14 (SetChild of an already attached child keeps its old
 // path) has no repair; while it is open the generator constructs the class
@@ -99,19 +117,22 @@ func genCfg() *hist.GenCfg {
 		// the Go representation of the trees: structs (by value and pointer), typed slices / arrays / maps of
 		// structs, nested, in the initial tree, in SetChild trees and in merged values
 		Structs: 3,
+		// the separator the history is written with (PathSep of every operation, and of the reading calls that are
+		// given the history's own options)
+		Seps: []string{".", ".", "/", "::", ".", "|"},
 	}
 }
 
-// nonCanonical reports whether a name (split at "." if dotted) has a segment
+// nonCanonical reports whether a name (split at the separator if dotted) has a segment
 // that is a list index but not written as the plain decimal number Path and
 // FlattenedKeys have to answer with.
-func nonCanonical(name string, dotted bool) bool {
+func nonCanonical(name string, dotted bool, sep string) bool {
 	if name == "" {
 		return false
 	}
 	parts := []string{name}
 	if dotted {
-		parts = strings.Split(name, ".")
+		parts = strings.Split(name, sep)
 	}
 	for _, p := range parts {
 		if sg := model.ClassifySeg(p); sg.IsIdx && sg.String() != p {
@@ -123,7 +144,7 @@ func nonCanonical(name string, dotted bool) bool {
 
 // keySpelling classifies the object keys of a tree: does a key contain the
 // separator, and does such a key have a non-canonical index segment?
-func keySpelling(t *gen.Tree, dotted bool) (dottedKey, nonCanon bool) {
+func keySpelling(t *gen.Tree, dotted bool, sep string) (dottedKey, nonCanon bool) {
 	if t == nil || !dotted {
 		return false, false
 	}
@@ -132,10 +153,10 @@ func keySpelling(t *gen.Tree, dotted bool) (dottedKey, nonCanon bool) {
 			return
 		}
 		for _, k := range n.Keys {
-			if strings.Contains(k, ".") {
+			if strings.Contains(k, sep) {
 				dottedKey = true
 			}
-			if nonCanonical(k, true) {
+			if nonCanonical(k, true, sep) {
 				nonCanon = true
 			}
 		}
@@ -143,7 +164,18 @@ func keySpelling(t *gen.Tree, dotted bool) (dottedKey, nonCanon bool) {
 	return
 }
 
-func genCase(t *rapid.T) Case { return hist.Gen(t, genCfg()) }
+// qSeps: separators for Path / PathOf ("" = the old rule: "." or "/").
+var qSeps = []string{"", "", "", "::", "-", "~", "→", " ", "..", "|", "_", ":", "%v", "./", "\\"}
+
+func genCase(t *rapid.T) Case {
+	c := Case{Case: hist.Gen(t, genCfg())}
+	n := rapid.IntRange(1, 3).Draw(t, "nreadopts")
+	for i := 0; i < n; i++ {
+		c.ReadOpts = append(c.ReadOpts, genRead(t, fmt.Sprintf("read%d", i)))
+	}
+	c.QSep = rapid.SampledFrom(qSeps).Draw(t, "qsep")
+	return c
+}
 
 // ---------------------------------------------------------------------------
 // oracle
@@ -155,7 +187,11 @@ func genCase(t *rapid.T) Case { return hist.Gen(t, genCfg()) }
 // throughout a history (and only after the last step the other one as well):
 // reads must not disturb each other - an implementation that remembers the
 // last answer per node would be refreshed by every change of the separator.
-func checkPositions(st *hist.State, qsep string, final bool) (nodes int, err error) {
+//
+// rd (may be nil): after the last step every container that is reached is also
+// asked for its FlattenedKeys under the read options of that check: the
+// root-relative paths of the non-nil primitive settings below it.
+func checkPositions(st *hist.State, qsep string, final bool, rd *reader) (nodes int, err error) {
 	root := st.Root
 	if p := root.C.Path(qsep); p != "" {
 		return 0, fmt.Errorf("the root says its path is %q", p)
@@ -203,6 +239,16 @@ func checkPositions(st *hist.State, qsep string, final bool) (nodes int, err err
 			return fmt.Errorf("the node at %q: Parent() is not the node it was reached from (%q) but %s", want, model.JoinSegs(path, qsep), pp)
 		}
 		if cm.Kind == "cont" {
+			if final && rd != nil && rd.decided {
+				below := cm.Leaves(rd.sep)
+				for i := range below {
+					below[i] = model.JoinSegs(p, rd.sep) + rd.sep + below[i]
+				}
+				sort.Strings(below)
+				if err := checkFlattened(ch, below, rd.opts); err != nil {
+					return fmt.Errorf("the node reached by navigating to %q, called with the options %s: %v", want, rd.ro, err)
+				}
+			}
 			return walk(ch, cm, p)
 		}
 		return nil
@@ -396,7 +442,11 @@ func trace(c Case, upto int) string {
 			fmt.Fprintf(&b, " %s", canon.Show(op.Val.Go()))
 		}
 	}
-	fmt.Fprintf(&b, "\n  pathsep=%v", c.PathSep)
+	fmt.Fprintf(&b, "\n  pathsep=%v %q", c.PathSep, c.Sep)
+	for i, ro := range c.ReadOpts {
+		fmt.Fprintf(&b, "\n  read options %d: %s", i, ro)
+	}
+	fmt.Fprintf(&b, "\n  Path/PathOf asked with %q (\"\": \".\", every fourth history \"/\")", c.QSep)
 	return b.String()
 }
 
@@ -404,7 +454,7 @@ func runCase(c Case, r *runlog.R) error {
 	if c.ExclD14 > 0 {
 		r.Excluded("D14")
 	}
-	st, ok, err := hist.New(c, true)
+	st, ok, err := hist.New(c.Case, true)
 	if err != nil {
 		return err
 	}
@@ -412,14 +462,33 @@ func runCase(c Case, r *runlog.R) error {
 		r.Discard()
 		return nil
 	}
-	prevLeaves := st.Root.M.Leaves(".")
+	// the read side: one reader per option list of the case
+	var readers []*reader
+	for _, ro := range c.ReadOpts {
+		rd, err := newReader(ro)
+		if err != nil {
+			return err
+		}
+		readers = append(readers, rd)
+	}
+	var prevM *model.Node // the model before the step (for the paths under another separator)
+	nchecks, readJoints := 0, map[int]bool{}
+	// wsep: the separator the history is written with, which is also what the reading calls that are given the
+	// history's own options join with ("." without PathSep)
+	wsep := "."
+	if st.Sep != "" {
+		wsep = st.Sep
+	}
+	prevLeaves := st.Root.M.Leaves(wsep)
 	prevCfg, err := fresh(st.Root.M, st.Opts)
 	if err != nil {
 		return fmt.Errorf("building a config from the initial model failed: %v", err)
 	}
 	// the separator Path and PathOf are asked with: one per history (see checkPositions)
 	qsep := "."
-	if len(c.Ops)%4 == 3 {
+	if c.QSep != "" {
+		qsep = c.QSep
+	} else if len(c.Ops)%4 == 3 {
 		qsep = "/"
 	}
 	final := false
@@ -432,10 +501,14 @@ func runCase(c Case, r *runlog.R) error {
 		if want := st.Root.M.Reify(); !canon.EqualSplit(got, want) {
 			return fmt.Errorf("the root differs from the model\n got  %s\n want %s", canon.String(canon.Split(canon.Of(got))), canon.String(canon.Split(canon.Of(want))))
 		}
-		if _, err := checkPositions(st, qsep, final); err != nil {
+		var rd *reader
+		if len(readers) > 0 {
+			rd = readers[nchecks%len(readers)]
+		}
+		if _, err := checkPositions(st, qsep, final, rd); err != nil {
 			return err
 		}
-		leaves := st.Root.M.Leaves(".")
+		leaves := st.Root.M.Leaves(wsep)
 		if err := checkFlattened(st.Root.C, leaves, st.Opts); err != nil {
 			return err
 		}
@@ -457,6 +530,32 @@ func runCase(c Case, r *runlog.R) error {
 				return fmt.Errorf("new = an equal config built from scratch: %v", err)
 			}
 		}
+		// the same three questions asked with another option list: the answers are the same positions, joined
+		// with the separator asked for
+		if len(readers) > 0 {
+			k := nchecks % len(readers)
+			rd := readers[k]
+			rleaves, err := rd.flattened(st.Root.C, st.Root.M)
+			if err != nil {
+				return err
+			}
+			if prevM != nil {
+				if err := rd.diff(prevCfg, st.Root.C, prevM.Leaves(rd.sep), rleaves); err != nil {
+					return fmt.Errorf("old = state before the step: %v", err)
+				}
+			}
+			if err := rd.diff(st.Root.C, cur, rleaves, rleaves); err != nil {
+				return fmt.Errorf("new = an equal config built from scratch: %v", err)
+			}
+			if err := rd.diff(cur, st.Root.C, rleaves, rleaves); err != nil {
+				return fmt.Errorf("old = an equal config built from scratch: %v", err)
+			}
+			if joints(st.Root.M) {
+				readJoints[k] = true
+			}
+		}
+		nchecks++
+		prevM = st.Root.M.Copy()
 		prevCfg, prevLeaves = cur, leaves
 		return nil
 	}
@@ -502,11 +601,11 @@ func runCase(c Case, r *runlog.R) error {
 			}
 		}
 		if info.Skipped == "" && !info.Rejected {
-			odd := op.Kind != hist.Merge && nonCanonical(op.Name, c.PathSep)
+			odd := op.Kind != hist.Merge && nonCanonical(op.Name, c.PathSep, wsep)
 			r.ClassIf(odd, "op address with an index segment in another integer syntax")
 			r.ClassIf(odd && info.Wrote && op.Kind != hist.Remove, "write through an index segment in another integer syntax")
 			r.ClassIf(odd && info.Padded, "padding write through an index segment in another integer syntax")
-			dk, nc := keySpelling(op.Val, c.PathSep)
+			dk, nc := keySpelling(op.Val, c.PathSep, wsep)
 			r.ClassIf(dk, op.Kind+" of a tree with dotted keys")
 			r.ClassIf(nc, op.Kind+" of a tree whose dotted keys have index segments in another integer syntax")
 		}
@@ -523,14 +622,30 @@ func runCase(c Case, r *runlog.R) error {
 		}
 	}
 	r.NonTrivialIf(nt)
-	if dk, nc := keySpelling(c.Init, c.PathSep); dk {
+	if dk, nc := keySpelling(c.Init, c.PathSep, wsep); dk {
 		r.Class("initial tree (NewFrom) with dotted keys")
 		r.ClassIf(nc, "initial tree (NewFrom) whose dotted keys have index segments in another integer syntax")
 	}
 	r.ClassIf(c.InitRepr, "initial tree (NewFrom) in Go struct representations")
 	r.ClassIf(structLists, "history brings in a list whose elements are Go structs (merge or SetChild)")
 	r.Class("paths asked with separator " + qsep)
+	for k, rd := range readers {
+		if k >= nchecks {
+			break
+		}
+		r.Class(rd.ro.sepClass())
+		r.ClassIf(readJoints[k], "read options used on a state with a setting below the top level")
+		r.ClassIf(readJoints[k] && rd.sep != ".", "read with another separator than \".\" on a state with a setting below the top level")
+		r.ClassIf(len(rd.ro.Others) > 0, "read options with other options around PathSep")
+		r.ClassIf(len(rd.ro.Others) > 0 && !rd.ro.NoSep && rd.ro.At > 0, "read options: PathSep is not the first option")
+		r.ClassIf(len(rd.ro.Others) > 0 && !rd.ro.NoSep && rd.ro.At < len(rd.ro.Others), "read options: PathSep is not the last option")
+		for _, o := range rd.ro.Others {
+			r.Class("read option " + o)
+		}
+		r.ClassIf(rd.ro.Sep == "" && !rd.ro.NoSep && rd.decided, fmt.Sprintf("PathSep(\"\") read as %q", rd.sep))
+	}
 	r.ClassIf(c.PathSep, "with PathSep")
+	r.ClassIf(c.PathSep, fmt.Sprintf("history written with PathSep(%q)", wsep))
 	r.ClassIf(!c.PathSep, "without PathSep")
 	r.ClassIf(isD14Class(c), "D14 class (re-attached child)")
 	return nil
@@ -538,12 +653,12 @@ func runCase(c Case, r *runlog.R) error {
 
 var subHist = runlog.Register(&runlog.Sub[Case]{
 	Name: "positional-histories",
-	Rule: "histories of 3-20 (thorough: 3-36) operations Set*, SetChild(fresh config), Remove, Merge under all five policies (half of the merged trees put a list where the history keeps its lists; 2 in 10 merges take their value from mixed Go representations, a fresh *Config kept in the case, the *Config of the root / a child handle / a stand-alone config, or data embedding one; 3 in 10 of the other merges, of the SetChild trees and of the initial trees (NewFrom) are handed over in Go STRUCT representations: structs by value and by pointer with interface{} or concretely typed fields, []T / [N]T / []*T of structs, map[string]T / map[string]*T of structs, lists of mixed struct elements, nested in each other; half of those trees are a list of 1-3 objects with the same keys below a name where the history keeps its lists (existing key), below any key of the alphabet (mostly new) or one level deeper), Child, and re-attachment of a pooled child with SetChild (after removing it from its old place), on the root and on pooled child handles; addresses from overlapping dictionary-ish and list-ish dotted names plus explicit indices 0..3 (1 in 10: 8, 9, 10, 16); the spelling of positions is varied: 3 in 10 index segments of a dotted name are written in another integer syntax of strconv base 0 (+1, 02, 0o2, 0x1, 0b1, 0_1, -0, 1_0 ...), an explicit index is sometimes written as the last segment, and with PathSep half of the trees that are merged, attached with SetChild or given to NewFrom (initial tree) spell part of their structure in dotted keys (\"l.02.x\": 1 for l: [nil, nil, {x: 1}]; all children of a container inlined or only some of them next to the plain key; nil padding left to the library; index segments in every integer syntax); operations that would give a node both named keys and list elements are skipped, no references. After every step: every node of the model is navigated to Child by Child; its Path(sep) must be the navigated path - names as written, indices as plain decimal numbers whatever spelling wrote them - and its Parent() pointer-identical to the handle it was reached from (root: empty path, nil parent); PathOf(field, sep) is that path extended by the field; sep is \".\" or (every fourth history) \"/\" for the whole history, after the last step both are asked; FlattenedKeys equals the sorted model paths of the non-nil primitives (decimal indices); CompareConfigs(state before the step, state) partitions exactly and CompareConfigs(state, equal config built from scratch out of plain nested maps and lists) reports no change. Non-trivial: some step moved an existing non-nil setting to another path (removal before the end of a list, prepend merge, re-attachment) or an append/prepend merge extended a non-empty list; all positional queries follow it. Distinct: hash of the whole case. While finding D14 is open the generator replaces re-attachments by SetChild of fresh configs (counted in excluded_known).",
+	Rule: "histories of 3-20 (thorough: 3-36) operations Set*, SetChild(fresh config), Remove, Merge under all five policies (half of the merged trees put a list where the history keeps its lists; 2 in 10 merges take their value from mixed Go representations, a fresh *Config kept in the case, the *Config of the root / a child handle / a stand-alone config, or data embedding one; 3 in 10 of the other merges, of the SetChild trees and of the initial trees (NewFrom) are handed over in Go STRUCT representations: structs by value and by pointer with interface{} or concretely typed fields, []T / [N]T / []*T of structs, map[string]T / map[string]*T of structs, lists of mixed struct elements, nested in each other; half of those trees are a list of 1-3 objects with the same keys below a name where the history keeps its lists (existing key), below any key of the alphabet (mostly new) or one level deeper), Child, and re-attachment of a pooled child with SetChild (after removing it from its old place), on the root and on pooled child handles; addresses from overlapping dictionary-ish and list-ish dotted names plus explicit indices 0..3 (1 in 10: 8, 9, 10, 16); the spelling of positions is varied: 3 in 10 index segments of a dotted name are written in another integer syntax of strconv base 0 (+1, 02, 0o2, 0x1, 0b1, 0_1, -0, 1_0 ...), an explicit index is sometimes written as the last segment, and with PathSep half of the trees that are merged, attached with SetChild or given to NewFrom (initial tree) spell part of their structure in dotted keys (\"l.02.x\": 1 for l: [nil, nil, {x: 1}]; all children of a container inlined or only some of them next to the plain key; nil padding left to the library; index segments in every integer syntax); operations that would give a node both named keys and list elements are skipped, no references. After every step: every node of the model is navigated to Child by Child; its Path(sep) must be the navigated path - names as written, indices as plain decimal numbers whatever spelling wrote them - and its Parent() pointer-identical to the handle it was reached from (root: empty path, nil parent); PathOf(field, sep) is that path extended by the field; sep is one separator for the whole history (4 in 15: one of \"::\" - ~ \u2192 space .. | _ : %v ./ backslash; else \".\" or, every fourth history, \"/\"), after the last step a second one is asked as well (\".\", or \"/\" if the first is \".\"); FlattenedKeys equals the sorted model paths of the non-nil primitives (decimal indices); CompareConfigs(state before the step, state) partitions exactly and CompareConfigs(state, equal config built from scratch out of plain nested maps and lists) reports no change; these three are asked with the options the history is written with (with PathSep 1 in 2 histories is written with another separator than \".\": \"/\", \"::\", \"|\", which is then the joint of every path) AND, after every step, with one of the 1-3 READ OPTION LISTS of the case in rotation, which are independent of how the history was written: PathSep(s) with s one of 21 separators (sorting before \".\", between \".\" and digits, between digits and letters, after the letters; multi-byte, multi-character, containing \".\", white space, \"%v\", \".\" itself, and \"\" for which \".\" and \"\" are both accepted as the joint, the same one for FlattenedKeys and CompareConfigs) or (1 in 12) no PathSep at all (joint \".\"), in half of the lists surrounded by 1-3 of 16 options that say nothing about how positions are reported (VarExp, ResolveEnv, ResolveNOOP, Env, EscapePath, MaxIdx(0), MaxIdx(100000), EnableNumKeys, MetaData, the four merge policies, StructTag, ValidatorTag, FieldAppendValues) with PathSep first, last or between them: FlattenedKeys(opts) equals the sorted model paths joined with s, CompareConfigs(before, state, opts), (state, equal config, opts) and (equal config, state, opts) partition exactly those path strings (not asserted when two settings share one path string under s); after the last step every container reached by navigation is asked for FlattenedKeys(opts) as well: the root-relative paths of the non-nil primitives below it. Non-trivial: some step moved an existing non-nil setting to another path (removal before the end of a list, prepend merge, re-attachment) or an append/prepend merge extended a non-empty list; all positional queries follow it. Distinct: hash of the whole case. While finding D14 is open the generator replaces re-attachments by SetChild of fresh configs (counted in excluded_known).",
 	Gen:  genCase,
 	Run:  runCase,
 })
 
-func TestPositionalHistories(t *testing.T) { subHist.Check(t, 26000, 2000000) }
+func TestPositionalHistories(t *testing.T) { subHist.Check(t, 23000, 1800000) }
 
 // ---------------------------------------------------------------------------
 // pairs of configurations for diff
@@ -559,6 +674,9 @@ type PairCase struct {
 	// Structs: A and B are also built from their Go struct representations (hist.StructRepr, chosen by the R
 	// fields of their containers)
 	Structs bool `json:"structs,omitempty"`
+	// Read: the option list FlattenedKeys and CompareConfigs are called with (nil: the options the
+	// configurations were built with)
+	Read *ReadOpts `json:"read,omitempty"`
 }
 
 func pairCfg() *gen.TreeCfg {
@@ -630,6 +748,10 @@ func genPair(t *rapid.T) PairCase {
 		hist.AssignStructReprs(t, pc.A)
 		hist.AssignStructReprs(t, pc.B)
 	}
+	if rapid.IntRange(0, 3).Draw(t, "readopts") != 0 {
+		ro := genRead(t, "read")
+		pc.Read = &ro
+	}
 	return pc
 }
 
@@ -649,16 +771,12 @@ func runPair(pc PairCase, r *runlog.R) error {
 		r.Discard()
 		return nil
 	}
-	la, lb := ma.Leaves("."), mb.Leaves(".")
-	if hasDup(la) || hasDup(lb) {
-		r.Discard() // a key that contains the separator: two settings share one path string
-		return nil
-	}
+	build := opts // the options the configurations are built with
 	mk := func(t *gen.Tree) (*ucfg.Config, error) {
 		var c *ucfg.Config
 		err := uc.Safe("NewFrom", func() error {
 			var e error
-			c, e = ucfg.NewFrom(t.Go(), opts...)
+			c, e = ucfg.NewFrom(t.Go(), build...)
 			return e
 		})
 		return c, err
@@ -671,6 +789,36 @@ func runPair(pc PairCase, r *runlog.R) error {
 	b, err := mk(pc.B)
 	if err != nil {
 		return fmt.Errorf("NewFrom(B): %v", err)
+	}
+	// the read side: the options the reading calls are given (from here on opts are those), rsep the
+	// separator the answers are joined with
+	rsep := "."
+	if pc.Read != nil {
+		rd, err := newReader(*pc.Read)
+		if err != nil {
+			return err
+		}
+		// PathSep(""): "." or "" (see ReadOpts.Sep), told apart on whichever configuration has a joint
+		if _, err := rd.flattened(a, ma); err != nil {
+			return fmt.Errorf("A: %v", err)
+		}
+		if _, err := rd.flattened(b, mb); err != nil {
+			return fmt.Errorf("B: %v", err)
+		}
+		opts, rsep = rd.opts, rd.sep
+		r.Class(pc.Read.sepClass())
+		r.ClassIf(len(pc.Read.Others) > 0, "read options with other options around PathSep")
+		r.ClassIf(rsep != "." && (joints(ma) || joints(mb)), "read with another separator than \".\", setting below the top level")
+		for _, o := range pc.Read.Others {
+			r.Class("read option " + o)
+		}
+	} else {
+		r.Class("read with the options the configurations were built with")
+	}
+	la, lb := ma.Leaves(rsep), mb.Leaves(rsep)
+	if hasDup(la) || hasDup(lb) {
+		r.Discard() // a key that contains the separator: two settings share one path string
+		return nil
 	}
 	if err := checkFlattened(a, la, opts); err != nil {
 		return fmt.Errorf("A: %v", err)
@@ -699,7 +847,7 @@ func runPair(pc PairCase, r *runlog.R) error {
 			leaves []string
 		}{{"A2", pc.A2, la}, {"B2", pc.B2, lb}} {
 			m, err := model.FromTreeSep(x.t, ".", false)
-			if err != nil || !sameKeys(m.Leaves("."), x.leaves) {
+			if err != nil || !sameKeys(m.Leaves(rsep), x.leaves) {
 				return fmt.Errorf("harness: %s does not denote the same settings as its plain spelling (%v)", x.name, err)
 			}
 		}
@@ -726,8 +874,8 @@ func runPair(pc PairCase, r *runlog.R) error {
 		if err := checkDiff(b2, a, lb, la, opts); err != nil {
 			return fmt.Errorf("B2 -> A: %v", err)
 		}
-		dka, nca := keySpelling(pc.A2, true)
-		dkb, ncb := keySpelling(pc.B2, true)
+		dka, nca := keySpelling(pc.A2, true, ".")
+		dkb, ncb := keySpelling(pc.B2, true, ".")
 		r.ClassIf(dka || dkb, "a configuration spelled with dotted keys")
 		r.ClassIf(nca || ncb, "dotted keys with index segments in another integer syntax")
 	}
@@ -736,11 +884,11 @@ func runPair(pc PairCase, r *runlog.R) error {
 		mkS := func(t *gen.Tree, used map[string]int) (*ucfg.Config, error) {
 			var c *ucfg.Config
 			err := uc.Safe("NewFrom", func() error {
-				v, e := hist.StructRepr(t, opts, used)
+				v, e := hist.StructRepr(t, build, used)
 				if e != nil {
 					return e
 				}
-				c, e = ucfg.NewFrom(v, opts...)
+				c, e = ucfg.NewFrom(v, build...)
 				return e
 			})
 			return c, err
@@ -795,7 +943,7 @@ func runPair(pc PairCase, r *runlog.R) error {
 
 var subPairs = runlog.Register(&runlog.Sub[PairCase]{
 	Name: "diff-pairs",
-	Rule: "pairs (A, B) of random trees without references, every node a dictionary or a list, B an edited copy of A (children dropped, replaced, added; 3 of 4 cases) or independent: FlattenedKeys of each equals the model's non-nil primitive paths; CompareConfigs(A,B) and (B,A) put every path in exactly the right one of Keep/Add/Remove; CompareConfigs(A, equal copy) and (A, A) report no change. With PathSep each of A and B is also written a second way (A2, B2: part of the structure spelled in dotted keys, list indices in any integer syntax, nil padding left out): FlattenedKeys(A2) equals the same plain decimal paths, CompareConfigs(A, A2) reports no change, CompareConfigs(A2, B2) and (B2, A) partition like (A, B) and (B, A). In 1 of 3 cases A and B are also built a third way (A3, B3: NewFrom of Go struct representations: structs by value and pointer with interface{} or concretely typed fields, []T / [N]T / []*T and map[string]T / map[string]*T of structs, nested): FlattenedKeys(A3) equals the same paths, CompareConfigs(A, A3) reports no change, CompareConfigs(A3, B3) partitions like (A, B). Non-trivial: the two key sets share a path and differ in one. Distinct: hash of the case.",
+	Rule: "pairs (A, B) of random trees without references, every node a dictionary or a list, B an edited copy of A (children dropped, replaced, added; 3 of 4 cases) or independent: FlattenedKeys of each equals the model's non-nil primitive paths; CompareConfigs(A,B) and (B,A) put every path in exactly the right one of Keep/Add/Remove; CompareConfigs(A, equal copy) and (A, A) report no change. With PathSep each of A and B is also written a second way (A2, B2: part of the structure spelled in dotted keys, list indices in any integer syntax, nil padding left out): FlattenedKeys(A2) equals the same plain decimal paths, CompareConfigs(A, A2) reports no change, CompareConfigs(A2, B2) and (B2, A) partition like (A, B) and (B, A). In 1 of 3 cases A and B are also built a third way (A3, B3: NewFrom of Go struct representations: structs by value and pointer with interface{} or concretely typed fields, []T / [N]T / []*T and map[string]T / map[string]*T of structs, nested): FlattenedKeys(A3) equals the same paths, CompareConfigs(A, A3) reports no change, CompareConfigs(A3, B3) partitions like (A, B). In 3 of 4 cases every FlattenedKeys and CompareConfigs call above is given a READ OPTION LIST that is independent of the options the configurations were built with (as in positional-histories: PathSep(s) with one of 21 separators or no PathSep, alone or with 1-3 other options before / after it): the expected paths are the same positions joined with s. Non-trivial: the two key sets share a path and differ in one. Distinct: hash of the case.",
 	Gen:  genPair,
 	Run:  runPair,
 })
